@@ -1,4 +1,5 @@
 pub mod gdsreal;
 pub mod geom;
+pub mod hier;
 pub mod order;
 pub mod gdsstream;
